@@ -84,6 +84,8 @@ pub struct Endpoint {
     pub last_pending: bool,
     pub last_bufsize: usize,
     pub last_tx_next: u32,
+    pub steps: u64,            // number of step() calls so far (epoch for the TimeSensitive rule)
+    pub sent_since_step: bool,
 }
 
 pub struct Pair {
@@ -148,6 +150,8 @@ impl Pair {
             last_pending: false,
             last_bufsize: 0,
             last_tx_next: u32::MAX,
+            steps: 0,
+            sent_since_step: false,
         };
         Self {
             cfg,
@@ -227,7 +231,8 @@ impl Pair {
             let hc = self.ep[e].hc.as_mut().unwrap();
             guarded(&hl, || hc.send(data, ch, mode))
         };
-        tr.line(json!({"ev": "Send", "ep": self.ep[e].name, "uid": uid, "ch": ch, "mode": mode_str(mode), "len": len, "nfrag": nfrag, "t": self.t_ms()}));
+        self.ep[e].sent_since_step = true;
+        tr.line(json!({"ev": "Send", "ep": self.ep[e].name, "uid": uid, "ch": ch, "mode": mode_str(mode), "len": len, "nfrag": nfrag, "t": self.t_ms(), "sn": self.ep[e].steps}));
         match r {
             Ok(()) => self.probe(tr, e),
             Err(oc) => self.ret_panic(tr, e, "send", oc),
@@ -246,13 +251,16 @@ impl Pair {
             let hc = self.ep[e].hc.as_mut().unwrap();
             guarded(&hl, || hc.step())
         };
+        self.ep[e].steps += 1;
+        let log = log || self.ep[e].sent_since_step;
+        self.ep[e].sent_since_step = false;
         match r {
             Ok(()) => {
                 if log {
                     let hc = self.ep[e].hc.as_ref().unwrap();
                     let s = hc.verif_snapshot();
                     let rtt_us = hc.rtt_s().map(|r| (r * 1e6).round().min(2e9) as i64).unwrap_or(-1);
-                    let mut v = json!({"ev": "Step", "ep": self.ep[e].name, "t": self.t_ms(), "rtt_us": rtt_us,
+                    let mut v = json!({"ev": "Step", "ep": self.ep[e].name, "t": self.t_ms(), "sn": self.ep[e].steps, "rtt_us": rtt_us,
                         "rate": s.rate.send_rate, "credit": s.flush_alloc.clamp(-2_000_000_000, 2_000_000_000), "rmode": s.rate.mode});
                     if self.log_snap {
                         v["snap"] = snap_json(&s, &self.cfg, e);
@@ -363,7 +371,7 @@ impl Pair {
                     dgs.push(json!({"pid": rel20(dg.sequence_id, self.cfg.pbase[e]), "uid": uid, "mode": mode, "frag": dg.fragment_id, "last": dg.fragment_id_last,
                         "ch": dg.channel_id, "wpl": dg.window_parent_lead, "cpl": dg.channel_parent_lead, "dlen": dg.data.len()}));
                 }
-                json!({"ev": "Emit", "ep": name, "idx": idx, "t": t, "len": bytes.len(), "kind": "D",
+                json!({"ev": "Emit", "ep": name, "idx": idx, "t": t, "sn": self.ep[e].steps, "len": bytes.len(), "kind": "D",
                        "fid": rel32(f.sequence_id, self.cfg.fbase[e]), "nonce": f.nonce, "dgs": dgs})
             }
             Some(uv::Frame::AckFrame(f)) => {
